@@ -476,7 +476,7 @@ OAW = {
         if (ln, m) != ('L2', 'Resistivity')],
     'center': [0.0, -950.0, 333.3],
     'domain': [[-2000.0, 1500.0], [-600.5, 412.0], None],
-    'distance': [None, [300.0, 800.0]],
+    'distance': [None, [300.0, 800.0], [-2500.0, 4000.0], [1500.0, -700.0]],
     'vector': [None, 'reg', 'irr', 'out'],
     'stretching': [[1.0, 1.5], [1.05, 1.3], [1.2, 1.2]],
     'min_width_limits': [None, 55.0, [20.0, 120.0]],
@@ -629,7 +629,7 @@ def oaw_products(tier):
 # ---------------------------------------------------- construct_mesh: cases
 CENTER3 = (120.0, -40.0, -950.0)
 DOM3 = ([-1800.0, 2100.0], [-700.0, 650.0], [-2500.0, -100.0])
-DIST3 = ([500.0, 900.0], [350.0, 200.0], [1200.0, 640.0])
+DIST3 = ([500.0, 900.0], [-350.0, 200.0], [1200.0, -640.0])   # signed: |.| counts
 STR3 = ([1.0, 1.5], [1.04, 1.35], [1.1, 1.25])
 LIM3 = (55.0, [20.0, 120.0], None)
 PPS3 = (3, 5, 4)
